@@ -119,6 +119,69 @@ def scenario(ctx, rng, point):
         ctx.traces += 1
 
 
+def upload_scenario(ctx, rng, point):
+    """two `vsb upload` runs with the same configuration file: the second is started while the first waits for a delayed reply of the
+    emulator (during listing / during transfer)"""
+    from vlib import cloud
+    with slevel.Sandbox("c16u") as sb:
+        H = runs.History(ctx, sb, rng, "C16", 3, 3)
+        H.w.populate(nfiles=3)
+        H.w.write_file(os.path.join(H.w.src, H.w.items[0], "keeper"), b"k" * 300)
+        H.run(nedits=1)
+        cloud.write_upload_config(sb, H.w.st, "dropbox")
+        init = {"dropbox": {cloud.CLOUD_ROOT: {"type": "folder"}}}
+        route = "dropbox.list_folder" if point == "upload-listing" else "dropbox.upload_session.append"
+        emu = cloud.Emu(sb.path("emu"), init=init, script=[{"when": {"route": route, "nth": 1}, "fault": "delay", "seconds": 3.0}])
+        try:
+            env = dict(os.environ)
+            env.update({"TZ": "UTC", "LC_ALL": "C", "HOME": sb.path("home"), "VSB_VERIF_HTTP_ENDPOINT": emu.endpoint,
+                        "LD_PRELOAD": aux.ensure_faketime(), "VERIF_FAKE_TIME": str(H.now + 500)})
+            p1 = subprocess.Popen([build.VSB, "-c", sb.cfg, "upload"], stdout=subprocess.PIPE, stderr=subprocess.STDOUT, env=env, cwd=sb.root)
+            # the emulator logs a request when it completes: the first run is inside the delayed request once the one before it is logged
+            prev = "oauth.dropbox.token" if point == "upload-listing" else "dropbox.upload_session.start"
+            ok = wait_for(lambda: any(q["route"] == prev for q in emu.requests()), timeout=10.0)
+            time.sleep(0.4)
+            n_before = len(emu.requests())
+            t0 = time.time()
+            p2 = subprocess.run([build.VSB, "-c", sb.cfg, "upload"], stdout=subprocess.PIPE, stderr=subprocess.STDOUT, env=env, cwd=sb.root, timeout=60)
+            dt = time.time() - t0
+            first_running = p1.poll() is None
+            n_after = len(emu.requests())
+            out2 = p2.stdout.decode("utf-8", "replace")
+            out1 = p1.communicate(timeout=90)[0].decode("utf-8", "replace")
+            files = emu.files("dropbox")
+        finally:
+            emu.stop()
+            cloud.kill_agents(sb)
+        ctx.evaluations += 1
+        ctx.count("pause." + point)
+        ctx.nontrivial.add((point, p1.returncode, p2.returncode))
+        desc = {"first_paused": point, "first_still_running_when_second_ended": first_running, "second_exit": p2.returncode,
+                "second_seconds": round(dt, 2), "second_errors": slevel.errors_of(out2)[:2], "first_exit": p1.returncode}
+        ctx.sample(desc)
+        if not ok or not first_running:
+            ctx.violation("schedule", "correspondence lock-schedule no longer checks: the first upload could not be held at '%s' (ready=%s, running=%s)"
+                          % (point, ok, first_running), {"case": desc, "first_output": out1[-600:]}, failing_input=False)
+            return
+        problem = None
+        if p2.returncode == 0:
+            problem = "a second `vsb upload` started while the first was held (%s) exits 0" % point
+        elif not any("lock" in e.lower() for e in slevel.errors_of(out2)):
+            problem = "the second upload fails without a lock error: %s" % slevel.errors_of(out2)[:2]
+        elif n_after != n_before:
+            problem = "the refused second upload sent %d request(s) to the provider" % (n_after - n_before)
+        elif dt > 2.0:
+            problem = "the second upload did not fail immediately (%.1f s)" % dt
+        if problem:
+            ctx.violation("exclusion", problem, {"case": desc, "second_output": out2[-600:]})
+            return
+        finals = [p for p in files if p.endswith(".tar.gpg") and not os.path.basename(p).startswith(".")]
+        if p1.returncode != 0 or slevel.errors_of(out1) or len(finals) != 1:
+            ctx.violation("schedule", "correspondence lock-schedule no longer checks: the held first upload ends with exit %d, %s, %d final objects"
+                          % (p1.returncode, slevel.errors_of(out1)[:2], len(finals)), {"case": desc, "first_output": out1[-600:]}, failing_input=False)
+        ctx.traces += 1
+
+
 def bracket(ctx, rng):
     """(a): the lock brackets every storage call of a run that removes an old group"""
     with slevel.Sandbox("c16b") as sb:
@@ -166,7 +229,9 @@ def run(ctx):
     build.ensure_vsbh()
     reps = 4 if thorough else 1
     ctx.rule = ("lock bracket: %d traced run(s) with rotation and removal of an old group; exclusion: a second real run started while the first is "
-                "paused at 4 points (after taking the lock, while items are read, during publication, during old-group removal) x %d. Non-trivial: "
+                "paused at 4 points (after taking the lock, during a before-hook while items are about to be read, during publication, during old-group "
+                "removal) x %d; two `vsb upload` runs with the same configuration file, the second started while the first waits for a delayed reply "
+                "of the provider emulator (during listing, during transfer). Non-trivial: "
                 "every scenario; distinct by (pause point, exit codes)." % (reps, reps))
     for _ in range(reps):
         bracket(ctx, rng)
@@ -174,7 +239,10 @@ def run(ctx):
             scenario(ctx, rng, point)
             if ctx.violations:
                 return
-    ctx.notes.append("`vsb upload` takes the same lock on the configuration file (uploading/mod.rs); its concurrent-run scenario needs the provider emulator and is part of the C05 driver")
+        for point in ("upload-listing", "upload-transfer"):
+            upload_scenario(ctx, rng, point)
+            if ctx.violations:
+                return
     ctx.assumptions += ["flock(2) exclusion between processes is the kernel's", "strace delay_enter pauses the first process inside the chosen call"]
 
 
